@@ -29,7 +29,7 @@ var c22AllowedMethods = map[string]bool{
 }
 
 func runC22(w *World, r *Report) {
-	r.Rule("R-C22-1", "edge cut: with the edges {revocation lookup says not revoked, lookup failed, token ID empty} removed, no nil-error return of ValidateJWT is reachable", 2)
+	r.Rule("R-C22-1", "edge cut: with the edges {revocation lookup says not revoked, token ID empty} removed, no nil-error return of ValidateJWT and no success answer of any other OAuth handler that consults the list is reachable; a lookup that failed is not an answer", 3)
 	r.Rule("R-C22-2", "parser discipline in server/oauth: ParseWithClaims is the only parse entry; WithExpirationRequired always, WithIssuer/WithAudience whenever configured; claims returned only behind err==nil and token.Valid", 5)
 	r.Rule("R-C22-3", "the verification-key function returns a key only for asymmetric signing methods (type-switch cases within the allowed set, erroring default)", 2)
 	r.Rule("R-C22-4", "no call of jwt ParseUnverified anywhere in the repository", 1)
@@ -88,8 +88,6 @@ func runC22(w *World, r *Report) {
 			switch f.Kind {
 			case "false":
 				return isLookupResult(f.V, 0)
-			case "nonnil":
-				return isLookupResult(f.V, 1)
 			case "eq":
 				s, ok := constString(f.C)
 
@@ -114,12 +112,85 @@ func runC22(w *World, r *Report) {
 			if reachable[ret.Block()] {
 				r.Violate("R-C22-1", key, w.pos(ret.Pos()), "this accepting return is reachable without any revocation lookup for the token's ID: a revoked JWT is accepted on this path")
 			} else {
-				r.Discharge("R-C22-1", key, w.pos(ret.Pos()), "reachable only through {not revoked | lookup error | empty token ID}")
+				r.Discharge("R-C22-1", key, w.pos(ret.Pos()), "reachable only through {the lookup answered not revoked | empty token ID}")
 			}
 		}
 
 		if n == 0 {
 			r.Anchor("R-C22-1", "nil-error returns of ValidateJWT")
+		}
+	}
+
+	// the same discipline in every other function of the OAuth packages that consults the list
+	for _, p := range w.pkgsUnder("internal/server/oauth") {
+		for _, fn := range w.srcFuncs(p) {
+			if fn.Name() == "ValidateJWT" {
+				continue
+			}
+
+			var lookups []*ssa.Call
+
+			allInstrs(fn, func(in ssa.Instruction) {
+				if c, ok := in.(*ssa.Call); ok && callID(c.Common()) == "internal/language/tokens.IsIDBlacklisted" {
+					lookups = append(lookups, c)
+				}
+			})
+
+			if len(lookups) == 0 {
+				continue
+			}
+
+			cuts := cutEdges(fn, func(f Fact) bool {
+				switch f.Kind {
+				case "false":
+					c, i := resultOf(f.V)
+					for _, l := range lookups {
+						if c == l && i == 0 {
+							return true
+						}
+					}
+				case "eq":
+					if s, ok := constString(f.C); ok && s == "" {
+						for _, l := range lookups {
+							if sameFieldLoad(f.V, l.Call.Args[0]) {
+								return true
+							}
+						}
+					}
+				}
+
+				return false
+			})
+
+			n := 0
+
+			allInstrs(fn, func(in ssa.Instruction) {
+				// the success answer: util.WriteJSON or WriteHeader(200)
+				isAnswer := callTo(in, "internal/util.WriteJSON") != nil
+
+				if c := callTo(in, "net/http.ResponseWriter.WriteHeader"); c != nil {
+					if k, isC := constInt(c.Args[0]); isC && k == 200 {
+						isAnswer = true
+					}
+				}
+
+				if !isAnswer {
+					return
+				}
+
+				n++
+
+				key := fnKey(fn) + "|answer behind the revocation lookup"
+				if n > 1 {
+					key += "#" + sprintInt(n)
+				}
+
+				if instrReachableAfterCut(fn, in, cuts) {
+					r.Violate("R-C22-1", key, w.pos(in.Pos()), "this handler answers with the token's claims on a path where the revocation lookup did not say 'not revoked' (a failed lookup is skipped over): a revoked token is honoured while the list cannot be read")
+				} else {
+					r.Discharge("R-C22-1", key, w.pos(in.Pos()), "reachable only through {the lookup answered not revoked | empty token ID}")
+				}
+			})
 		}
 	}
 
